@@ -308,21 +308,27 @@ func shuffledBlocks[S, D signal.SignalTypes](rng *rand.Rand, conv func(*signal.B
 		}
 		idx = idx[n:]
 	}
-	// one large block (length just above 2^16, not a multiple of 4): a path that switches strategy for large
-	// buffers (blocks, goroutines) must convert every sample; the tail and a random sample of positions are judged
+	// one large block (2^16 + 1..5000 samples, drawn with repetition): a path that switches strategy for large
+	// buffers (blocks, tables, goroutines, run detection) must convert every sample as if it were alone; every
+	// DISTINCT (input, output) pair of the block is judged (capped), plus the last positions
 	if len(xs) > 0 {
-		n := 1<<16 + 1 + rng.Intn(3)
+		n := 1<<16 + 1 + rng.Intn(5000)
 		in := make([]S, n)
 		for i := range in {
 			in[i] = xs[rng.Intn(len(xs))]
 		}
 		ys := convertSlice(conv, in)
-		for k := 0; k < 40; k++ {
-			i := rng.Intn(n)
-			if k < 8 {
-				i = n - 1 - k
+		type pair struct {
+			x S
+			y D
+		}
+		seen := map[pair]struct{}{}
+		for i := n - 1; i >= 0 && len(seen) < 3000; i-- {
+			p := pair{in[i], ys[i]}
+			if _, ok := seen[p]; !ok {
+				seen[p] = struct{}{}
+				emit(in[i], ys[i])
 			}
-			emit(in[i], ys[i])
 		}
 	}
 }
